@@ -101,13 +101,13 @@ inline void m_plans(const Edge& e, const Parsed& P, unsigned props) {
 	int exitClearPending = -1;
 	bool activeFailedThisCycle = false; bool anyFailCallThisCycle = false; bool planNonEmptyAtStep = false;
 	bool checkEmptyAfterOutcome = false;
-	const bool c08 = props & (1u << C08), c09 = props & (1u << C09), c10 = props & (1u << C10);
+	const bool c08 = props & (1u << C08), c09 = props & (1u << C09);
 
 	// API-level effects that precede the trace
 	switch (e.op.k) {
-	case OP_PLAN_CHANGE: case OP_PLAN_CHANGEW: { const int before = m.len; bool ok; pm_append(m, e.op.a, e.op.b, e.op.k == OP_PLAN_CHANGEW ? e.op.c : 0, &ok); if (c10 && (e.res.ret != 0) != ok) flag(C10, "append-result", e, "append returned %d with %d of %d tasks present", e.res.ret, before, TASK_CAP); } break;
+	case OP_PLAN_CHANGE: case OP_PLAN_CHANGEW: { bool ok; pm_append(m, e.op.a, e.op.b, e.op.k == OP_PLAN_CHANGEW ? e.op.c : 0, &ok); } break;
 	case OP_PLAN_CLEAR: pm_clear(m); break;
-	case OP_PLAN_REMOVE: if (c10 && e.res.aux != m.len) flag(C10, "iteration-disturbed-by-remove", e, "iterator visited %d tasks of %d while removing mask %u", e.res.aux, m.len, e.op.a); pm_remove(m, e.op.a); break;
+	case OP_PLAN_REMOVE: pm_remove(m, e.op.a); break;
 	case OP_SUCCEED: m.succ |= static_cast<uint8_t>(1u << e.op.a); break;
 	case OP_FAIL: m.fail |= static_cast<uint8_t>(1u << e.op.a); break;
 	case OP_LOAD: if (A0 != NONE8) { pm_clear(m); m.exists = false; } break;
@@ -155,13 +155,6 @@ inline void m_plans(const Edge& e, const Parsed& P, unsigned props) {
 				if (region != lastPhaseMeth) t = ST_NONE;
 				lastPhaseMeth = region; lastWasSub = v.sid != ROOT;
 			}
-			// C10: what iteration yields is exactly the model's sequence; first()/last()/bool agree with it
-			if (c10 && (v.flags & OF_PLAN)) {
-				bool same = v.planlen == m.len; for (int k = 0; same && k < m.len && k < MAXPLAN; ++k) same = task_eq(v.plan[k], m.plan[k]);
-				if (!same) flag(C10, "iteration-differs-from-appended-sequence", e, "ev %d: iteration yields %d tasks, %d were appended and not removed", i, v.planlen, m.len);
-				if ((v.planbool != 0) != (v.planlen > 0)) flag(C10, "emptiness-test", e, "ev %d: bool(plan)=%d with %d tasks", i, v.planbool, v.planlen);
-				if (v.planbool && v.planlen && v.planlen <= MAXPLAN && (!task_eq(v.pfirst, v.plan[0]) || !task_eq(v.plast, v.plan[v.planlen - 1]))) flag(C10, "first-last", e, "ev %d: first()/last() disagree with iteration", i);
-			}
 			if (c09 && checkEmptyAfterOutcome) { checkEmptyAfterOutcome = false; if (v.planlen) flag(C09, "plan-not-empty-after-outcome", e, "ev %d: %d tasks visible after the outcome callback returned", i, v.planlen); }
 			if (v.meth == M_PLAN_OK || v.meth == M_PLAN_FAIL) {
 				++outcomeSeen;
@@ -182,9 +175,9 @@ inline void m_plans(const Edge& e, const Parsed& P, unsigned props) {
 		switch (v.kind) {
 		case EV_SUCCEED: m.succ |= static_cast<uint8_t>(1u << v.a); if (is_phase(v.meth)) t = ST_SUCCESS; break;
 		case EV_FAIL: m.fail |= static_cast<uint8_t>(1u << v.a); if (is_phase(v.meth)) { t = ST_FAILURE; anyFailCallThisCycle = true; if (v.a == A0) activeFailedThisCycle = true; } break;
-		case EV_PLAN_APPEND: { const int before = m.len; bool ok; pm_append(m, v.a, v.b, v.c, &ok); if (c10 && (v.r != 0) != ok) flag(C10, "append-result", e, "ev %d: append returned %d with %d of %d tasks present", i, v.r, before, TASK_CAP); } break;
+		case EV_PLAN_APPEND: { bool ok; pm_append(m, v.a, v.b, v.c, &ok); } break;
 		case EV_PLAN_CLEAR: pm_clear(m); break;
-		case EV_PLAN_REMOVE: if (c10 && v.b != m.len) flag(C10, "iteration-disturbed-by-remove", e, "ev %d: iterator visited %d of %d tasks", i, v.b, m.len); pm_remove(m, v.a); break;
+		case EV_PLAN_REMOVE: pm_remove(m, v.a); break;
 		case EV_CHANGE: m.req = mkreq(v.sid, v.a, v.b); break;
 		case EV_LOG_TRANS: {
 			const bool echo = (i + 1 < e.nev && e.tr[i + 1].kind == EV_CHANGE && e.tr[i + 1].a == v.a);
@@ -231,13 +224,61 @@ inline void m_plans(const Edge& e, const Parsed& P, unsigned props) {
 		if (e.post.fail != m.fail) flag(C09, "failure-report-lifetime", e, "outstanding failure reports %x, expected %x", e.post.fail, m.fail);
 		if (checkEmptyAfterOutcome && e.post.planlen) flag(C09, "plan-not-empty-after-outcome", e, "%d tasks after the outcome callback returned", e.post.planlen);
 	}
-	// ---- C10: public view after the call
-	if (c10) {
-		bool same = e.post.planlen == m.len; for (int k = 0; same && k < m.len && k < MAXPLAN; ++k) same = task_eq(e.post.plan[k], m.plan[k]);
-		if (!same) flag(C10, "iteration-differs-from-appended-sequence", e, "after the call iteration yields %d tasks, expected %d", e.post.planlen, m.len);
-		if ((e.post.planbool != 0) != (e.post.planlen > 0)) flag(C10, "emptiness-test", e, "bool(plan)=%d with %d tasks", e.post.planbool, e.post.planlen);
-		if (e.post.planlen > TASK_CAP) flag(C10, "capacity-exceeded", e, "%d tasks, capacity %d", e.post.planlen, TASK_CAP);
+}
+
+// C10: the plan as a bounded FIFO list. Own walker, independent of the plan-step model: user edits are applied as they
+// happen and every observation must show exactly that sequence; where the library itself may remove tasks (firing in the plan
+// step, clearing after an outcome callback or at deactivation) the observed sequence must be an order-preserving
+// sub-sequence, from which the walk continues.
+inline bool plan_subseq(const TxS* small, int ns, const TxS* big, int nb) { int j = 0; for (int i = 0; i < ns; ++i) { while (j < nb && !task_eq(small[i], big[j])) ++j; if (j == nb) return false; ++j; } return true; }
+inline void m10(const Edge& e, const Parsed&) {
+	if (e.terminal) return;
+	PlanModel m; memset(&m, 0, sizeof m); if (!e.initial) pm_from(e.pre, m);
+	const bool cycle = e.op.k == OP_UPDATE || e.op.k == OP_REACT;
+	bool mayShrink = false;
+	auto appended = [&](uint8_t o, uint8_t d, uint8_t pv, int ret, int ev) { const int before = m.len; bool ok; pm_append(m, o, d, pv, &ok); if ((ret != 0) != ok) flag(C10, "append-result", e, "ev %d: append returned %d with %d of %d tasks present", ev, ret, before, TASK_CAP); };
+	switch (e.op.k) {
+	case OP_PLAN_CHANGE: case OP_PLAN_CHANGEW: appended(e.op.a, e.op.b, e.op.k == OP_PLAN_CHANGEW ? e.op.c : 0, e.res.ret, -1); break;
+	case OP_PLAN_CLEAR: pm_clear(m); break;
+	case OP_PLAN_REMOVE: if (e.res.aux != m.len) flag(C10, "iteration-disturbed-by-remove", e, "iterator visited %d tasks of %d while removing mask %u", e.res.aux, m.len, e.op.a); pm_remove(m, e.op.a); break;
+	case OP_LOAD: case OP_EXIT: mayShrink = true; break;
+	default: break;
 	}
+	bool phasesOver = false;
+	for (int i = 0; i < e.nev; ++i) {
+		const Ev& v = e.tr[i];
+		if (v.kind == EV_MARK) break;
+		if (v.kind == EV_CB) {
+			if (cycle && !phasesOver && !is_phase(v.meth)) { phasesOver = true; mayShrink = true; }
+			if (v.flags & OF_PLAN) {
+				const int n = v.planlen < MAXPLAN ? v.planlen : MAXPLAN;
+				bool same = v.planlen == m.len; for (int k = 0; same && k < m.len && k < MAXPLAN; ++k) same = task_eq(v.plan[k], m.plan[k]);
+				if (!same) {
+					if (mayShrink && plan_subseq(v.plan, n, m.plan, m.len)) { m.len = n; for (int k = 0; k < n; ++k) m.plan[k] = v.plan[k]; }
+					else flag(C10, "iteration-differs-from-appended-sequence", e, "ev %d: iteration yields %d tasks, %d were appended and not removed", i, v.planlen, m.len);
+				}
+				mayShrink = false;
+				if ((v.planbool != 0) != (v.planlen > 0)) flag(C10, "emptiness-test", e, "ev %d: bool(plan)=%d with %d tasks", i, v.planbool, v.planlen);
+				if (v.planbool > 1) flag(C10, "plan-views-disagree", e, "ev %d: read-only and mutable plan views disagree (%s)", i, v.planbool == 2 ? "emptiness" : "first()/last()");
+				if (v.planbool && v.planlen && v.planlen <= MAXPLAN && (!task_eq(v.pfirst, v.plan[0]) || !task_eq(v.plast, v.plan[v.planlen - 1]))) flag(C10, "first-last", e, "ev %d: first()/last() disagree with iteration", i);
+				if (v.planlen > TASK_CAP) flag(C10, "capacity-exceeded", e, "ev %d: %d tasks, capacity %d", i, v.planlen, TASK_CAP);
+			}
+			if (v.inj) continue;
+			if (v.meth == M_PLAN_OK || v.meth == M_PLAN_FAIL) mayShrink = true;       // cleared after the callback returns
+			if (v.meth == M_EXIT) mayShrink = true;                                    // root exit clears the plan
+			continue;
+		}
+		if (v.kind == EV_PLAN_APPEND) appended(v.a, v.b, v.c, v.r, i);
+		else if (v.kind == EV_PLAN_CLEAR) pm_clear(m);
+		else if (v.kind == EV_PLAN_REMOVE) { if (v.b != m.len) flag(C10, "iteration-disturbed-by-remove", e, "ev %d: iterator visited %d of %d tasks", i, v.b, m.len); pm_remove(m, v.a); }
+	}
+	if (cycle && !phasesOver) mayShrink = true;
+	const int n = e.post.planlen < MAXPLAN ? e.post.planlen : MAXPLAN;
+	bool same = e.post.planlen == m.len; for (int k = 0; same && k < m.len && k < MAXPLAN; ++k) same = task_eq(e.post.plan[k], m.plan[k]);
+	if (!same && !(mayShrink && plan_subseq(e.post.plan, n, m.plan, m.len))) flag(C10, "iteration-differs-from-appended-sequence", e, "after the call iteration yields %d tasks, %d were appended and not removed", e.post.planlen, m.len);
+	if ((e.post.planbool != 0) != (e.post.planlen > 0)) flag(C10, "emptiness-test", e, "bool(plan)=%d with %d tasks", e.post.planbool, e.post.planlen);
+	if (e.post.planlen > TASK_CAP) flag(C10, "capacity-exceeded", e, "%d tasks, capacity %d", e.post.planlen, TASK_CAP);
+	if (e.post.active == NONE8 && e.post.planlen) flag(C10, "plan-survives-deactivation", e, "%d tasks on an inactive machine", e.post.planlen);
 }
 #endif
 
@@ -387,7 +428,8 @@ inline void m18(const Edge& e, const Parsed&) {
 
 inline void extra_monitors(const Edge& e, const Parsed& P, unsigned props) {
 #if VX_PLANS
-	if (props & ((1u << C08) | (1u << C09) | (1u << C10))) m_plans(e, P, props);
+	if (props & ((1u << C08) | (1u << C09))) m_plans(e, P, props);
+	if (props & (1u << C10)) m10(e, P);
 #endif
 	if (props & (1u << C12)) m12(e, P);
 	if (props & (1u << C15)) m15(e, P);
